@@ -291,6 +291,20 @@ def pool(seed, tier, strategies=None, n_fast=None, n_slow=None, inject=False, fe
         for js, st, opts in directed(rng):
             if st in strategies:
                 recs.append(run_record(js, st, opts))
+        if inject:
+            # D6: a zero-length scenario with a grid connector, all reports written
+            js = scen.gen_scenario(rng, n_gc=1, n_veh=1, features={"fixed"}, steps=4, interval=60)
+            js["scenario"]["n_intervals"] = 0
+            if "greedy" in strategies:
+                recs.append(run_record(js, "greedy", {}, reports=True))
+            # D7: peak_load_window with a stationary battery where no peak-load window lies ahead (windows of another year)
+            if "peak_load_window" in strategies:
+                js = scen.gen_scenario(rng, n_gc=1, n_veh=1, features={"battery", "fixed"}, steps=6, interval=60)
+                start = datetime.datetime.fromisoformat(js["scenario"]["start_time"])
+                p = os.path.join(tmp, "tw_other_year.json")
+                json.dump({"default_grid_operator": {"all": {"start": "%d-01-01" % (start.year - 3), "end": "%d-12-31" % (start.year - 3),
+                                                              "windows": {lv: [["08:00", "10:00"]] for lv in ("HV", "MV", "LV")}}}}, open(p, "w"))
+                recs.append(run_record(js, "peak_load_window", {"time_windows": p, "ALLOW_NEGATIVE_SOC": True}, time_limit=40))
         for i in range(n_fast):
             # exact rationals grow with every step: long runs only in the thorough tier
             js = scen.gen_scenario(rng, steps=rng.choice([4, 8, 12, 16]) if (tier == "quick" or i % 4) else None)
